@@ -56,6 +56,7 @@ B_Types == { << <<"bc", 1>> >>, << <<"bc", 2>> >>, << <<"eev", 1, 1>> >>, << <<"
              << <<"anyev", 1>> >>, << <<"anyev", 2>> >>, << <<"res", 1>> >>, << <<"res", 2>> >>,
              << <<"mut", 1>> >>, << <<"mut", 2>> >>, << <<"ins", 1>> >>, << <<"emut", 1, 1>> >>, << <<"emut", 2, 1>> >> }
 B_World == { << <<"bc", 1>> >>, << <<"res", 1>> >>, << <<"mut", 1>> >>, << <<"eev", 1, 1>> >>, << <<"bc", 1>>, <<"mut", 1>> >> }
+B_World1 == { << <<"bc", 1>> >>, << <<"mut", 1>> >> }
 Init_World == << <<"ins", 1, 1, 1>>, <<"ins", 2, 1, 1>> >>
 Init_Listen == << <<"reg", "persistent", 1, << <<"bc", 1>>, <<"eev", 1, 1>> >>, 0>>,
                   <<"reg", "persistent", 2, << <<"bc", 1>>, <<"anyev", 1>> >>, 0>> >>
@@ -68,6 +69,14 @@ Init_All == << <<"ins", 1, 1, 1>>, <<"ins", 2, 1, 1>>,
 Init_Comp == << <<"ins", 1, 1, 1>>, <<"ins", 2, 1, 1>>,
                 <<"reg", "persistent", 1, << <<"mut", 1>>, <<"rem", 1>>, <<"eins", 2, 1>> >>, 0>>,
                 <<"reg", "cleanup", 2, << <<"ins", 1>>, <<"erem", 1, 1>>, <<"desp", 2>> >>, 0>> >>
+Init_ErBurst == << <<"ins", 1, 1, 1>>, <<"ins", 2, 1, 1>>, <<"ins", 1, 2, 1>>,
+                   <<"reg", "persistent", 1, << <<"anyev", 1>>, <<"mut", 1>>, <<"ins", 1>>, <<"mut", 2>> >>, 0>>,
+                   <<"reg", "persistent", 2, << <<"eev", 1, 1>>, <<"emut", 2, 1>>, <<"rem", 1>> >>, 0>> >>
+Init_TabRem == << <<"ins", 1, 1, 1>>, <<"ins", 2, 1, 1>>,
+                  <<"reg", "persistent", 1, << <<"erem", 1, 1>>, <<"desp", 2>> >>, 0>> >>
+B_Desp == { << <<"desp", 1>> >>, << <<"desp", 2>> >>, << <<"desp", 1>>, <<"desp", 2>> >> }
+Init_TabDesp == << <<"reg", "revokable", 1, << <<"desp", 1>> >>, 1>>,
+                   <<"reg", "persistent", 2, << <<"desp", 2>> >>, 0>> >>
 Init_Desp == << <<"ins", 1, 1, 1>>,
                 <<"reg", "cleanup", 1, << <<"desp", 1>>, <<"desp", 2>> >>, 0>>,
                 <<"reg", "revokable", 2, << <<"desp", 1>>, <<"rem", 1>> >>, 1>> >>
